@@ -485,7 +485,30 @@ func c16WriteBits(c *Ctx) {
 		c.Check(reach, "R4", "hook-reapplies-write-flags:"+hook, p.Pos(fn.Pos()), "the hook re-applies lockable write flags", hook+" no longer re-applies the write flags of lockable files")
 	}
 	if il := p.Fn("locking", "(*Client).IsFileLockedByCurrentCommitter"); il != nil {
-		c.Check(len(CallsIn(il, "(*locking.Client).searchLocalLocks")) >= 1, "R4", "locked-by-committer:uses-own-locks-cache", p.Pos(il.Pos()), "decided from the cache of own locks", "IsFileLockedByCurrentCommitter does not consult the cache of own locks")
+		usesCache := false
+		seenF := map[*ssa.Function]bool{}
+		var look func(f *ssa.Function, d int)
+		look = func(f *ssa.Function, d int) {
+			if f == nil || seenF[f] || d > 2 || f.Blocks == nil {
+				return
+			}
+			seenF[f] = true
+			for _, b := range f.Blocks {
+				for _, in := range b.Instrs {
+					if cc := AsCall(in); cc != nil {
+						n := CalleeName(cc)
+						if strings.HasSuffix(n, ".Locks") && (strings.Contains(n, "LockCache") || strings.Contains(n, "LockCacher")) {
+							usesCache = true
+						}
+						if sc := cc.StaticCallee(); sc != nil && sc.Pkg == il.Pkg {
+							look(sc, d+1)
+						}
+					}
+				}
+			}
+		}
+		look(il, 0)
+		c.Check(usesCache, "R4", "locked-by-committer:uses-own-locks-cache", p.Pos(il.Pos()), "decided from the cache of own locks", "IsFileLockedByCurrentCommitter does not consult the cache of own locks")
 	}
 }
 
